@@ -209,7 +209,7 @@ def _is_empty(n):
 for _n in (0, 1, 2, 3):
     contract(
         "PolyhedralTermList.is_empty[%d]" % _n,
-        ["C11", "C03", "C17", "C13", "C14"],
+        ["C11", "C13", "C14"],
         [PTL + "is_empty", PTL + "termlist_to_polytope"],
         "S",
         bound="%d terms over {x,y}, every support" % _n,
@@ -283,6 +283,8 @@ for _n, _nc in [(0, None), (1, None), (2, None), (1, 1), (2, 1), (1, 0)]:
         bound=B2,
         assumes=["contract of reduce_polytope (h_lp)", "A5"],
         covers=["return"],
+        shards=4 if (_n == 2 and _nc == 1) else 1,
+        weight=4 if (_n == 2 and _nc == 1) else 1,
     )(_simplify(_n, _nc))
 
 
@@ -374,7 +376,7 @@ def _contains(n):
 for _n in (0, 1, 2):
     contract(
         "PolyhedralTermList.contains_behavior[%d]" % _n,
-        ["C11", "C17", "C13", "C14"],
+        ["C11", "C13", "C14"],
         [PTL + "contains_behavior", PTL + "evaluate", POLY + ":PolyhedralTerm.substitute_variable", "pacti.iocontract.iocontract:TermList.vars"],
         "S",
         bound="%d terms over {x,y}; behaviours assign any subset of {x,y,w}" % _n,
@@ -471,4 +473,6 @@ for _n in (1, 2):
         bound="%d terms over {x,y}, objective over any subset of {x,y}, both directions" % _n,
         assumes=["A4", "A5"],
         covers=["value", "None", "ValueError"],
+        shards=2 * _n,
+        weight=2 * _n,
     )(_optimize(_n))
